@@ -100,8 +100,9 @@ def rule_add_to(chk, idx, tier):
     chk.rule(rid, 'add_to keeps the accepted spans pairwise disjoint and keeps exactly one covering interpretation, on every '
                   'order type of (accepted spans, new span)', floor=8, control=True)
     er_cls = idx.cls('recognizers_text.extractor.ExtractResult')
-    grid = 7 if tier == 'quick' else 8
-    maxd = 2 if tier == 'quick' else 3
+    # the accepted list is ordered by sub-extractor, not by position: every permutation of the accepted spans is tried
+    grid = 6 if tier == 'quick' else 7
+    maxd = 3
     sp = spans(grid)
     dests = [()]
     for k in range(1, maxd + 1):
@@ -123,7 +124,7 @@ def rule_add_to(chk, idx, tier):
         classes = {}
         runs = 0
         for D in dests:
-            orders = [D] if len(D) < 2 else [D, tuple(reversed(D))]
+            orders = sorted(set(itertools.permutations(D)))
             for Dord in orders:
                 for v in sp:
                     it = Interp(idx, where='%s.add_to' % k.name, budget=200000)
@@ -175,6 +176,8 @@ def rule_add_to(chk, idx, tier):
             core = tuple(sorted(set(r for r in rels if r != 'apart')))
             f = fam.setdefault(core, {'n': 0, 'bad': [], 'overlapping': []})
             f['n'] += st['n']
+            f['nbad'] = f.get('nbad', 0) + len(st['bad'])
+            f['nover'] = f.get('nover', 0) + len(st['overlapping'])
             f['bad'].extend(st['bad'][:2])
             f['overlapping'].extend(st['overlapping'][:2])
         for core in sorted(fam):
@@ -186,15 +189,15 @@ def rule_add_to(chk, idx, tier):
             if st['overlapping']:
                 D, v, got = sorted(st['overlapping'], key=lambda t: (len(t[0]), t))[0]
                 chk.bad(rid, k.mod.path, construct, 'two overlapping spans survive',
-                        '%s.add_to: when the %s, two overlapping spans survive (every one of the %d configurations of this kind), '
-                        'e.g. accepted %s + new %s -> %s' % (k.name, desc, st['n'], list(D), v, got), fn.lineno)
+                        '%s.add_to: when the %s, two overlapping spans survive (%d of the %d configurations of this kind), '
+                        'e.g. accepted list %s + new %s -> %s' % (k.name, desc, st['nover'], st['n'], list(D), v, got), fn.lineno)
             elif st['bad']:
                 D, v, why = sorted(st['bad'], key=lambda t: (len(t[0]), t))[0]
                 chk.bad(rid, k.mod.path, construct, 'wrong survivor',
                         '%s.add_to: accepted %s + new %s: %s' % (k.name, list(D), v, why), fn.lineno)
             else:
                 chk.ok(rid, k.mod.path, construct, 'pairwise disjoint, expected survivors', fn.lineno)
-        chk.observe('C12.add-to: %s.add_to interpreted on %d configurations (grid %d, up to %d accepted spans, both orders)'
+        chk.observe('C12.add-to: %s.add_to interpreted on %d configurations (grid %d, up to %d accepted spans, every list order)'
                     % (k.name, runs, grid, maxd))
     # positive control: an add_to that appends whatever comes
     ctl = ast.parse('def add_to(self, destinations, source, text):\n    for value in source:\n        destinations.append(value)\n'
